@@ -436,14 +436,12 @@ Definition url_of (root_names : list text) (parent_full : option text) (name : t
   end.
 
 Definition domain_name (tag : N) : text :=
-  match tag with
-  | 0 => [109; 111; 100; 117; 108; 101]                       (* module *)
-  | 1 => [99; 108; 97; 115; 115]                              (* class *)
-  | 2 => [102; 117; 110; 99; 116; 105; 111; 110]              (* function *)
-  | 3 => [109; 101; 116; 104; 111; 100]                       (* method *)
-  | 4 => [97; 116; 116; 114; 105; 98; 117; 116; 101]          (* attribute *)
-  | _ => [111; 98; 106]                                       (* obj, with an error report *)
-  end.
+  if N.eqb tag 0 then [109; 111; 100; 117; 108; 101]                            (* module *)
+  else if N.eqb tag 1 then [99; 108; 97; 115; 115]                              (* class *)
+  else if N.eqb tag 2 then [102; 117; 110; 99; 116; 105; 111; 110]              (* function *)
+  else if N.eqb tag 3 then [109; 101; 116; 104; 111; 100]                       (* method *)
+  else if N.eqb tag 4 then [97; 116; 116; 114; 105; 98; 117; 116; 101]          (* attribute *)
+  else [111; 98; 106].                                                          (* obj, with an error report *)
 
 Definition minus_one : text := [45; 49].     (* "-1" *)
 Definition dash : text := [45].              (* "-" *)
